@@ -1,7 +1,7 @@
 """C17 — the recommendation report shows exactly the filter's result.
 
 The real Markdown is parsed back into the structure the Lean model produces (buckets, sections,
-rows, summary) and compared with it; `-o stdout` is exercised through cli_recommend.cli_wrapper.
+rows, summary) and compared with it; `-o stdout` is compared as the set the CLI prints (`sorted(selected - hidden)`, computed here from the recommender; the print itself is exercised by c18.py).
 """
 import contextlib
 import copy
@@ -23,6 +23,8 @@ def parse_spans(s):
     s = s.strip()
     if s == "_imported_":
         return []
+    if s == "":
+        return [[-1, -1]]  # neither spans nor `_imported_`: never equal to a structured row (the property words both forms)
     s = re.sub(r"</?(details|summary)>", " ", s).replace("<br>", " ")
     out = []
     for part in s.replace(",", " ").split():
